@@ -6,6 +6,9 @@ CONSTANTS
   Mode = "policy"
   PMode = "broker"
   ProxyPats <- DefaultProxyPats
+  CacheKey = "none"
+  HistRule = 1
+  HistLen = 3
 SPECIFICATION PSpec
-INVARIANTS RejectedNeverRegistered ExplicitReject RegisteredAcceptsAllowed
+INVARIANTS HistoryIndependent RejectedNeverRegistered ExplicitReject RegisteredAcceptsAllowed
 CHECK_DEADLOCK FALSE
